@@ -825,6 +825,11 @@ for _h in HARNESSES:
     if _h.name in DEEP:
         _h.tiers = ('deep',)
 assert DEEP <= {h.name for h in HARNESSES}
+# the static-compare form (FORM == 2) returns before the "COVER: accepted" witness of the other forms: in those instantiations the
+# witness is compiled-out dead code and is expected to be unsatisfiable (their own witness is "COVER(f2): equal")
+for _h in HARNESSES:
+    if _h.name.startswith('c16_form_') and _h.name.endswith('_f2'):
+        _h.expect_unsat_cover = tuple(_h.expect_unsat_cover) + ('COVER: accepted',)
 
 
 def for_prop(prop, tier):
